@@ -176,6 +176,8 @@ let run (path : string) =
       predfail ~case:!case ~step:!step ~pred:"holds_C08_lend" ~kf:"none" ~detail:("after_" ^ kind);
     if not (holds_C08_borrow !cfg obs) then
       predfail ~case:!case ~step:!step ~pred:"holds_C08_borrow" ~kf:"none" ~detail:("after_" ^ kind);
+    if not (holds_C08_avail obs) then
+      predfail ~case:!case ~step:!step ~pred:"holds_C08_avail" ~kf:"none" ~detail:("after_" ^ kind);
     (* Side invariant (C08-F1 repaired): no position hangs on a lend position of another asset than its pair's asset in *)
     L.iter (fun (j, _) ->
         if mismatched_lend !cfg obs j then
